@@ -148,41 +148,53 @@ def scanZeros : Bytes → Nat → Nat → Nat × Nat
     if c == 101 || c == 69 then (p, q)
     else scanZeros r (if c != 48 then q else p) (q + 1)
 
+/-- `p = strchr(buf, ','); if (p) *p = '.'; else p = strchr(buf, '.');` : the buffer and `p` (as an index) -/
+def commaToPoint (buf : Bytes) : Bytes × Option Nat :=
+  match strchr buf 44 with
+  | some i => (buf.set i 46, some i)
+  | none => (buf, strchr buf 46)
+
+/-- `looks_numeric = is_plain_digit(buf[0]) || (size > 1 && buf[0] == '-' && is_plain_digit(buf[1]))`
+(`buf[strlen]` is the terminating NUL, not a digit) -/
+def looksNumeric (size : Nat) (buf : Bytes) : Bool :=
+  isDigitB (buf.headD 0) || (decide (size > 1) && buf.headD 0 == 45 && isDigitB ((buf.drop 1).headD 0))
+
+/-- the ".0" suffix: `if (size < (int)sizeof(buf) - 2 && looks_numeric && !p && strchr(buf, 'e') == NULL)
+{ strcat(buf, ".0"); size += 2; }` (format_drops_decimals is 1 for the standard format) -/
+def dotZero (size : Nat) (buf : Bytes) (p : Option Nat) : Outcome (Bytes × Nat) :=
+  if size + serDotZeroSlack < serDblBuf && looksNumeric size buf && p.isNone && (strchr buf 101).isNone then
+    -- strcat writes buf[strlen .. strlen + 2]
+    if buf.length + 3 > serDblBuf then .fault "double: strcat(buf, \".0\") writes past buf"
+    else .ok (buf ++ [46, 48], size + 2)
+  else .ok (buf, size)
+
+/-- `if (p && (flags & NOZERO)) { p++; for (q = p; *q && *q != 'e' && *q != 'E'; q++) if (*q != '0') p = q;
+if (p < q) memmove(p + 1, q, strlen(q) + 1); size = strlen(buf); }` -/
+def noZeroTrim (noZero : Bool) (p : Option Nat) (buf : Bytes) (size : Nat) : Bytes × Nat :=
+  match p, noZero with
+  | some i, true =>
+    let sc := scanZeros (buf.drop (i + 1)) 0 0
+    let pp := i + 1 + sc.1
+    let qq := i + 1 + sc.2
+    let b := if pp < qq then buf.take (pp + 1) ++ buf.drop qq else buf
+    (b, b.length)
+  | _, _ => (buf, size)
+
+/-- `if (size >= (int)sizeof(buf)) size = sizeof(buf) - 1; printbuf_memappend(pb, buf, size);` -/
+def finalAppend (buf : Bytes) (size : Nat) : Outcome Bytes :=
+  let size' := if size ≥ serDblBuf then serDblBuf - 1 else size
+  if size' = buf.length then .ok buf
+  else .fault "double: size differs from strlen(buf) (the formatted output contains NUL): bytes past the terminator appended"
+
 /-- The code after `size = snprintf(buf, sizeof(buf), format, d)` for a finite double: `out` is the
 complete formatted output (`size = |out|`), the buffer holds its first 127 bytes and a NUL.
 Returns the bytes handed to printbuf_memappend. -/
 def doublePost (noZero : Bool) (out : Bytes) : Outcome Bytes := do
   let size0 ← ckInt out.length "double: snprintf result"
-  let buf0 := snprintfImage serDblBuf out
-  -- p = strchr(buf, ','); if (p) *p = '.'; else p = strchr(buf, '.');
-  let (buf1, p) := match strchr buf0 44 with
-    | some i => (buf0.set i 46, some i)
-    | none => (buf0, strchr buf0 46)
-  -- looks_numeric = is_plain_digit(buf[0]) || (size > 1 && buf[0] == '-' && is_plain_digit(buf[1]))
-  -- (buf[strlen] is the terminating NUL, not a digit)
-  let b0 := buf1.headD 0
-  let b1 := (buf1.drop 1).headD 0
-  let looksNumeric := isDigitB b0 || (size0 > 1 && b0 == 45 && isDigitB b1)
-  let (buf2, size1) ←
-    if size0 + serDotZeroSlack < serDblBuf && looksNumeric && p.isNone && (strchr buf1 101).isNone then
-      -- strcat(buf, ".0"): writes buf[strlen .. strlen + 2]
-      if buf1.length + 3 > serDblBuf then (.fault "double: strcat(buf, \".0\") writes past buf" : Outcome (Bytes × Nat))
-      else .ok (buf1 ++ [46, 48], size0 + 2)
-    else .ok (buf1, size0)
-  let (buf3, size2) :=
-    match p, noZero with
-    | some i, true =>
-      -- p++ ; scan; if (p < q) memmove(p + 1, q, strlen(q) + 1); size = strlen(buf)
-      let (pOff, qOff) := scanZeros (buf2.drop (i + 1)) 0 0
-      let pp := i + 1 + pOff
-      let qq := i + 1 + qOff
-      let b := if pp < qq then buf2.take (pp + 1) ++ buf2.drop qq else buf2
-      (b, b.length)
-    | _, _ => (buf2, size1)
-  -- if (size >= (int)sizeof(buf)) size = sizeof(buf) - 1;  printbuf_memappend(pb, buf, size)
-  let size3 := if size2 ≥ serDblBuf then serDblBuf - 1 else size2
-  if size3 = buf3.length then .ok buf3
-  else .fault "double: size differs from strlen(buf) (the formatted output contains NUL): bytes past the terminator appended"
+  let cp := commaToPoint (snprintfImage serDblBuf out)
+  let r ← dotZero size0 cp.1 cp.2
+  let z := noZeroTrim noZero cp.2 r.1 r.2
+  finalAppend z.1 z.2
 
 /-- json_object_double_to_json_string_format with format = NULL and no custom global/thread format -/
 def doubleText (fmt : UInt64 → Bytes) (f : Fl) (bits : UInt64) : Outcome Bytes :=
@@ -212,9 +224,11 @@ def sepBytes (f : Fl) (hadChildren : Bool) : Bytes :=
   (if hadChildren then [44] else []) ++ (if f.pretty then [10] else []) ++ (if f.spacedOnly then [32] else [])
 
 /-- the bytes emitted after the loop, before the closing bracket -/
-def closeBytes (f : Fl) (level : Nat) (hadChildren : Bool) (closer : UInt8) : Outcome Bytes := do
-  let nl ← if f.pretty && hadChildren then (do let i ← indent f level; pure ([10] ++ i)) else pure []
-  pure (nl ++ (if f.spacedOnly then [32, closer] else [closer]))
+def closeBytes (f : Fl) (level : Nat) (hadChildren : Bool) (closer : UInt8) : Outcome Bytes :=
+  if f.pretty && hadChildren then do
+    let i ← indent f level
+    pure ([10] ++ i ++ (if f.spacedOnly then [32, closer] else [closer]))
+  else .ok (if f.spacedOnly then [32, closer] else [closer])
 
 variable (fmt : UInt64 → Bytes)
 
@@ -229,32 +243,33 @@ mutual
     | .dbl _ (some t) => userdataText t
     | .str s => stringText f s
     | .arr xs => do
-      let l1 ← ckInt (level + 1) "array: level + 1"
-      let body ← serElems f l1 xs false
+      let body ← serElems f level xs false
       let close ← closeBytes f level (!xs.isEmpty) 93
       pure ([91] ++ body ++ close)
     | .obj kvs => do
-      let l1 ← ckInt (level + 1) "object: level + 1"
-      let body ← serMembers f l1 kvs false
+      let body ← serMembers f level kvs false
       let close ← closeBytes f level (!kvs.isEmpty) 125
       pure ([123] ++ body ++ close)
-  /-- the element loop of json_object_array_to_json_string (`level` = level + 1 of the array) -/
+  /-- the element loop of json_object_array_to_json_string (`level` = the array's level) -/
   def serElems (f : Fl) (level : Nat) : List JVal → Bool → Outcome Bytes
     | [], _ => .ok []
     | x :: xs, had => do
-      let ind ← indent f level
-      let v ← serChild f level x
+      let l1 ← ckInt (level + 1) "array: level + 1"
+      let ind ← indent f l1
+      let v ← serChild f l1 x
       let rest ← serElems f level xs true
       pure (sepBytes f had ++ ind ++ v ++ rest)
-  /-- the member loop of json_object_object_to_json_string; the key is a C string (`strlen(iter.key)`) -/
+  /-- the member loop of json_object_object_to_json_string (`level` = the object's level); the key is a
+  C string (`strlen(iter.key)`) -/
   def serMembers (f : Fl) (level : Nat) : List (Bytes × JVal) → Bool → Outcome Bytes
     | [], _ => .ok []
     | (k, x) :: kvs, had => do
-      let ind ← indent f level
+      let l1 ← ckInt (level + 1) "object: level + 1"
+      let ind ← indent f l1
       let ke ← escapeStr f.noSlash (k.takeWhile (· != 0))
       let key := withColor f serColorBlue ([34] ++ ke ++ [34])
       let colon : Bytes := if f.spaced then [58, 32] else [58]
-      let v ← serChild f level x
+      let v ← serChild f l1 x
       let rest ← serMembers f level kvs true
       pure (sepBytes f had ++ ind ++ key ++ colon ++ v ++ rest)
 end
